@@ -23,6 +23,7 @@ pub mod mpsc {
     impl<T> UnboundedSender<T> {
         pub uninterp spec fn alive(&self) -> bool;
         pub uninterp spec fn sent_in_call(&self) -> Option<T>;
+//@once send
         #[verifier::external_body]
         pub fn send(&self, t: T) -> (r: Result<(), SendError<T>>)
             ensures r.is_ok() <==> self.alive(), self.sent_in_call() == Some(t),
